@@ -834,6 +834,17 @@ fn record_stall(out: &mut ShardOut, prop: &str, lvs: &[LV], case: &LayoutCase, s
   any
 }
 
+// the loop turns delay_ms / interval_ms into a Duration with `as u64`; negative values are outside the loop properties
+fn positive_timing(mut c: LayoutCase) -> LayoutCase {
+  for m in c.layout.mappings.iter_mut() {
+    if let Repeat::Special { delay_ms, interval_ms, .. } = &mut m.repeat {
+      if *delay_ms < 0 { *delay_ms = delay_ms.checked_abs().unwrap_or(i32::MAX - 64); }
+      if *interval_ms <= 0 { *interval_ms = interval_ms.checked_abs().unwrap_or(i32::MAX - 64).max(1); }
+    }
+  }
+  c
+}
+
 fn layout_pool(opts: &Opts, rng: &mut Rng, n_gen: usize) -> Vec<LayoutCase> {
   let mut cases = vec![];
   for (name, l) in corpus_layouts() {
@@ -845,7 +856,7 @@ fn layout_pool(opts: &Opts, rng: &mut Rng, n_gen: usize) -> Vec<LayoutCase> {
       "C11" => GenParams { absorbing: rng.chance(1, 4), norepeat: true, special_bias: true, max_mappings: 6 },
       _ => GenParams { absorbing: rng.chance(1, 3), norepeat: rng.chance(2, 3), special_bias: rng.chance(1, 2), max_mappings: 6 }
     };
-    cases.push(gen_case(rng, &p));
+    cases.push(positive_timing(gen_case(rng, &p)));
   }
   cases
 }
